@@ -507,9 +507,9 @@ def _run(ctx):
             n_ok = 0
             for (ob, oi, ocls, ov) in oks:
                 hit = None
-                for c in common.control_conditions(P, vf, ob):
+                for c in common.control_conditions(P, vf, ob) + common.forwarded_check_conditions(P, vf, ob, ov):
                     cd = c["cond"]
-                    if not vbody.edge_dominates(l["none_edge"], c["sw"]):
+                    if not (vbody.edge_dominates(l["none_edge"], c["sw"]) or (c["sw"] == ob and ob in vbody.reachable_from(l["none_edge"][1]))):
                         continue
                     if cd[0] == "cmp" and cd[1] in ("eq", "ne") and len(cd[2]) == 2:
                         rs = [set(ctx.roots(x)) for x in cd[2]]
@@ -544,7 +544,12 @@ def _run(ctx):
         else:
             hf = [(f["name"], f["ty"]) for f in hs[0]["fields"]]
             ef = [(f["name"], f["ty"]) for f in es[0]["fields"]]
-            if sorted(hf) != sorted(ef):
+            extra_e = [x for x in ef if x not in hf]
+            # the message the router serialises (hook shape) is read by the pair as ExecuteMsg::Swap: every field sent must exist
+            # with the same type; fields only the receiver knows must be optional (an absent `Option` field deserialises to None)
+            if all(x in ef for x in hf) and extra_e and all(t_.startswith(("std::option::Option<", "core::option::Option<")) for _, t_ in extra_e):
+                r5.site("Swap{%s} of the hook shape is accepted by ExecuteMsg::Swap (its further fields %s are optional)" % (", ".join(n for n, _ in hf), [n for n, _ in extra_e]))
+            elif sorted(hf) != sorted(ef):
                 r5.fail("C13.R5:shape", "haloswap::pair", hook["span"].replace("!x", ""), "Cw20HookMsg::Swap fields %s differ from ExecuteMsg::Swap fields %s: the router's native hop would not deserialize" % (hf, ef))
             else:
                 r5.site("Swap{%s} identical in both enums" % ", ".join(n for n, _ in hf))
